@@ -108,6 +108,14 @@ class DBusClientConnection (txdbus.protocol.BasicDBusProtocol):
             if cb in self._dcCallbacks:
                 cb(self, reason)
 
+        self._failPendingCalls(reason)
+
+        self.objHandler.connectionLost(reason)
+
+        # calls issued by the remote objects' disconnect callbacks
+        self._failPendingCalls(reason)
+
+    def _failPendingCalls(self, reason):
         # a failure handler may issue further calls on this (dead) connection
         # while the outstanding ones are being failed: those are outstanding
         # too and are failed by the same loss
@@ -117,8 +125,6 @@ class DBusClientConnection (txdbus.protocol.BasicDBusProtocol):
                 if timeout:
                     timeout.cancel()
                 d.errback(reason)
-
-        self.objHandler.connectionLost(reason)
 
     def notifyOnDisconnect(self, callback):
         """
